@@ -44,7 +44,8 @@ def gen(rng, tier, shape=None):
             "xdist": rng.choice(["2", "0"]) if rng.random() < 0.12 else None,
             "answers": {c: rng.random() < 0.5 for c in CATS}, "skip": rng.random() < 0.1,
             "empty_no": rng.random() < 0.3,      # a "no" is given as an empty line (the prompt's default)
-            "xfail": rng.random() < 0.1, "dup": rng.random() < 0.2, "unknown": False}
+            "xfail": rng.random() < 0.1, "dup": rng.random() < 0.2, "unknown": False,
+            "orphan": rng.random() < 0.4}     # a persisted external that no test references lies in the storage
     if rng.random() < 0.04:
         fl = fl + ["bogus"]
         case["unknown"] = True
@@ -86,6 +87,10 @@ def project(case):
 
 MODULE_XFAIL = ("from inline_snapshot import snapshot\nimport pytest\n\npytestmark = pytest.mark.xfail\n\n\n"
                 "def test_mod_x():\n    assert 5 == snapshot()\n\n\ndef test_mod_fix_x():\n    assert 5 == snapshot(4)\n")
+
+
+import hashlib
+ORPHAN = ".inline-snapshot/external/" + hashlib.sha256(b"orphan").hexdigest() + ".txt"
 
 
 def pyproject(case):
@@ -190,12 +195,15 @@ def run_impl(case):
     files = {"test_a.py": src}
     if case["xfail"]:
         files["test_zz_module_xfail.py"] = MODULE_XFAIL
+    if case.get("orphan"):
+        files[ORPHAN] = b"orphan"
     r = impl_pytest.run_session(files, args, env, stdin_for(case), pyproject(case))
     after = r["files"].get("test_a.py", b"").decode()
     obs = {"rc": r["rc"], "outcomes": r["outcomes"], "changed": after != src, "after": after,
            "usage_error": r["rc"] == 4 and after == src, "traceback": "Traceback" in r["stderr"],
            "stderr": r["stderr"][-1500:], "stdout_tail": r["stdout"][-1500:],
-           "other_files": sorted(k for k in r["files"] if k not in ("test_a.py", "pyproject.toml", "test_zz_module_xfail.py") and not k.startswith("probe")),
+           "other_files": sorted(k for k in r["files"] if k not in ("test_a.py", "pyproject.toml", "test_zz_module_xfail.py", ORPHAN) and not k.startswith("probe")),
+           "orphan_survived": r["files"].get(ORPHAN) == b"orphan",
            "probe": sorted({v.decode() for k, v in r["files"].items() if k.startswith("probe_")}),
            "probex": sorted({v.decode() for k, v in r["files"].items() if k.startswith("probex_")})}
     try:
@@ -312,6 +320,10 @@ def oracle(case, obs):
         fails.append(("C04", "applied_subset_approved", f"approved {sorted(ap)}, applied {sorted(applied)} (flags {effective_flags(case)}, answers {case['answers']})"))
     if obs["xfail_changed"]:
         fails.append(("C04", "xfail_untouched", "a test marked xfail was rewritten"))
+    if case.get("orphan") and "trim" not in ap and not obs["orphan_survived"]:
+        d = f"flags {effective_flags(case)} answers {case['answers']} ci={case['ci']} xdist={case['xdist']}: trim is not approved, but the unreferenced persisted external was removed from the storage"
+        fails.append(("C04", "storage_untouched_without_approval", d))
+        fails.append(("C13", "removed_only_by_approved_trim", d))
     if obs["other_files"] and not ap:
         fails.append(("C04", "no_other_files", f"files appeared: {obs['other_files']}"))
     # exactness: with F given alone or together with report / review the outcome equals applying exactly the pending changes in F
@@ -366,5 +378,5 @@ def histogram(case, obs, hist):
     src = "shortcut" if case["shortcut"] else "cli" if case["cli"] is not None else "env" if case["env"] is not None else "pyproject" if case["pyd"] is not None else "default"
     for k in ["src:" + src, "mode:" + "+".join(sorted(set(effective_flags(case)) - set(CATS))), "xdist:" + str(case["xdist"]),
               "ci:" + str(bool(case["ci"])), "tty:" + str(case["tty"]), "applied:" + ",".join(obs["applied"]),
-              "usage_error:" + str(obs["usage_error"]), "three_way:" + str("three_way" in obs)]:
+              "usage_error:" + str(obs["usage_error"]), "three_way:" + str("three_way" in obs), "orphan:" + str(bool(case.get("orphan")))]:
         hist[k] = hist.get(k, 0) + 1
